@@ -16,8 +16,7 @@ Open Scope N_scope.
      6  rpc style part given by element                         (element placed without accessor)
      7  rpc: soap:body parts="..." restriction                  (ignored: all parts in the wrapper)
      8  two ports/bindings publishing the same <portType>_<operation> name (last one wins)
-     9  a soap:header bound in wsdl:output                      (Header required: a Fault response
-                                                                 without it cannot be parsed)
+     9  (fixed in /repo 967d116: soap:header bound in wsdl:output; clause removed)
     10  a part refers to a schema component whose expanded name is also that of a
         wsdl:message of this document                           (the class made for the rpc message
                                                                  replaces the schema class)   *)
@@ -64,8 +63,7 @@ Definition op_findings (e : senv) (d : definitions) (b : binding) (po : pt_opera
          (5%nat, rpc || (forallb element_part (selected_of d bi pi) && forallb element_part (selected_of d bo' po')));
          (6%nat, negb rpc || (forallb (fun p => negb (element_part p)) (selected_of d bi pi)
                               && forallb (fun p => negb (element_part p)) (selected_of d bo' po')));
-         (7%nat, negb rpc || (negb (is_some (body_parts_of bi)) && negb (is_some (body_parts_of bo'))));
-         (9%nat, negb (has_header bo'))]
+         (7%nat, negb rpc || (negb (is_some (body_parts_of bi)) && negb (is_some (body_parts_of bo'))))]
   | _, _, _, _ => []
   end.
 
